@@ -35,7 +35,7 @@ def one(diff):
 
 diffs = sys.argv[1:]
 bad = 0
-with ThreadPoolExecutor(max_workers=5) as ex:
+with ThreadPoolExecutor(max_workers=int(os.environ.get("JOBS", "5"))) as ex:
     for diff, verdict, out in ex.map(one, diffs):
         print(f"{verdict:11} {diff}")
         for o in out:
